@@ -13,11 +13,12 @@ condition.ExprCondition.Evaluate               `evalWith` (expr-lang: NULL ==/!=
                                                ordering comparison → error; an error aborts ⇒ false)
 shouldFire / buildResult                       `shouldFire`, `buildResult`
 processRow                                     `step`   (groups map: `State = ε → Option Group`)
-getKeyAndValues                                `encJoin` (parts joined with "|", nil ↦ "")
+getKeyAndValues                                `encGlobal` (= `GroupKey.encWindow "__global__"`: escaped parts joined with "|", nil ↦ `\N`)
 The textual part of buildTrigger (regexp, first-occurrence strings.Replace) is not modelled: the
 predicate arrives as an AST and is tied to its text by the correspondence check only.
 -/
 import SsqlVerif.Model.GlobalBasic
+import SsqlVerif.Model.GroupKey
 set_option autoImplicit false
 
 namespace Global
@@ -234,22 +235,13 @@ def outAt [DecidableEq φ] [DecidableEq ε] [Num ν] (enc : κ → ε) (q : Quer
     (pre : List (Row κ φ ν)) (r : Row κ φ ν) : Option (Result κ ν) :=
   (step enc q (stateAfter enc q pre) r).2
 
-/-! ### the group-key encoder of `getKeyAndValues` -/
+/-! ### the group-key encoder of `getKeyAndValues` (shared `window/group_key.go`, modelled for C04) -/
 
 /-- a key part: `nil` (absent or NULL) or a string -/
 abbrev KeyPart := Option (List Char)
 
-def partText : KeyPart → List Char
-  | none => []
-  | some s => s
-
-def joinWith (sep : Char) : List (List Char) → List Char
-  | [] => []
-  | [x] => x
-  | x :: y :: rest => x ++ sep :: joinWith sep (y :: rest)
-
-/-- `strings.Join(parts, "|")`, `"__global__"` without GROUP BY keys -/
-def encJoin (k : List KeyPart) : List Char :=
-  if k.isEmpty then "__global__".toList else joinWith '|' (k.map partText)
+/-- `"__global__"` without GROUP BY keys; otherwise the parts, `|` and `\` escaped, NULL as `\N`,
+joined with `|` — `GroupKey.encWindow` is the model C04 proves injective -/
+def encGlobal (k : List KeyPart) : List Char := GroupKey.encWindow "__global__".toList k
 
 end Global
